@@ -1,5 +1,7 @@
 package tlv
 
+import "strings"
+
 type TlvNode interface {
 	IsValidNode() bool
 	Tag() TlvTag
@@ -10,4 +12,5 @@ type TlvNode interface {
 	Encode() []byte
 	String() string
 	stringWithIndent(indent int) string
+	writeString(sb *strings.Builder, indent int)
 }
